@@ -18,6 +18,7 @@ Instructions: `<ctor> <fields…>`; registers/conditions/system registers/sets a
        (Display of the error, then ` <- ` and each `source()`).
 * `front show <addr> <instr>` → hex of the text
 * `front showbuild <addr> <instr>` → `<texthex> <renderhex> | <res of build on Show.parts with the labels defined> | <instr>`
+* `front addroff <idx> <arg>` → `ok <reg> <none|i v|r n>` / `error <text>`
 * `front regl <hex>` / `front sysl <hex>` / `front isreg <hex>` / `front mnemonic <hex>` / `front names`
 -/
 namespace Trion.Driver.Front
@@ -377,6 +378,14 @@ def handle : List String → String
         | .error d st => "error " ++ diagText (getName st.instr) d ++ " | " ++ showInstr st.instr
         | .panic => "panic"
       s!"{hexOf (Show.text i addr)} {hexOf (Show.render p)} | {res}"
+    | _, _ => "bad-op"
+  | "addroff" :: idx :: r =>
+    match idx.toNat?, parseArg r with
+    | some idx, some (a, []) =>
+      match addrOff idx a with
+      | .ok (r, none) => s!"ok {r.val} none"
+      | .ok (r, some o) => s!"ok {r.val} {showIR o}"
+      | .error d => "error " ++ diagText "X" d
     | _, _ => "bad-op"
   | ["regl", h] => match unhexB h with
     | some b => match regl b with | some r => s!"ok {r.val}" | none => "none"
